@@ -215,18 +215,23 @@ func (c *Copier) CopyReference(obj Reference) (Reference, error) {
 	newRef = c.w.Alloc()
 	c.trans[obj] = newRef
 
+	// On failure the allocated reference is never written, so it must not
+	// stay in the translation table.
 	val, err := Resolve(c.r, obj)
 	if IsReadError(err) {
+		delete(c.trans, obj)
 		return 0, err
 	}
 	// a reference to a malformed or undefined source object resolves to
 	// null (PDF 2.0, 7.3.10); leave val nil and copy null in its place
 	trans, err := c.Copy(val)
 	if err != nil {
+		delete(c.trans, obj)
 		return 0, err
 	}
 	err = c.w.Put(newRef, trans)
 	if err != nil {
+		delete(c.trans, obj)
 		return 0, err
 	}
 
